@@ -64,7 +64,7 @@ struct Pending {
 	MState before;
 	uint32_t iv_before[3];
 	int step_kind = -1, step_mut = -1;
-	bool success_seen = false;
+	bool success_seen = false, alloc_failure_seen = false;
 	time_t t_query = 0;
 	wire::Bytes offender;
 };
@@ -292,6 +292,7 @@ static void snap_cb(const struct pfx_record *r, void *d)
 static Snapshot snapshot()
 {
 	Snapshot s;
+	struct NoFail { long save; NoFail() : save(L.fail_at) { L.fail_at = 0; } ~NoFail() { L.fail_at = save; } } nofail; // the harness's own lookups are not fault targets
 	pfx_table_for_each_ipv4_record(&E->pfx, snap_cb, &s);
 	pfx_table_for_each_ipv6_record(&E->pfx, snap_cb, &s);
 	for (int k = 0; k < 3; k++) {
